@@ -14,7 +14,7 @@ INFO = {
                    "are fr_to_bytes_le o hash_to_field and fr_to_bytes_le o poseidon_hash o bytes_le_to_vec_fr; (R09-4) the round structure of "
                    "Poseidon::hash/ark/sbox/mix_2 as a shape: state [0, inp..], RF+RP rounds, constants at offset i*t, x^5 on all lanes iff "
                    "i < RF/2 or i >= RF/2+RP else lane 0 only, dense matrix-vector product, output lane 0, and the branch-condition inventory "
-                   "of these functions equals the specification's (no arity- or value-dependent extra branch).",
+                   "of these functions equals the specification's (no arity- or value-dependent extra branch). R09-5 (shared with C11): the C entry points hash and poseidon_hash pass their input to the same-named function and publish its bytes in a buffer of their own.",
     "not_decided": "the Grain-LFSR constants (pinned by the suite for all eight arities) and the numeric result of the permutation; "
                    "Keccak-f itself (tiny-keccak is opaque)",
     "assumptions": ["tiny_keccak::Keccak::v256 is Keccak-256; BigUint::from_bytes_le and Fr::from(BigUint) are LE read and reduction mod p"],
@@ -83,6 +83,27 @@ def run(ctx):
                     ok = True
     ctx.check(ok, "R09-2", "rln::hashers::hash_to_field", "Fr::from(BigUint::from_bytes_le(keccak256(signal[all])[0..32])), single path",
               "hash_to_field computes %s on %d path(s); specification Fr::from(BigUint::from_bytes_le(keccak256(whole signal)[0..32]))" % (sh(got, 300), len(ps)), loc(hf))
+    check_entries(ctx, fb)
+    # ---------------- R09-4 shape
+    check_shape(ctx, fb)
+    # R09-5 (shared with C11): "across entry points (typed, byte-level, FFI)": the two C hash entry points hand their input to the
+    # same-named function and publish its bytes in a buffer of their own
+    from . import c11
+    from ..main import Ctx as _Ctx9
+    k9 = 0
+    for w in c11.wrappers(fb):
+        if w["name"] in ("hash", "poseidon_hash"):
+            sub9 = _Ctx9(ctx.pid, ctx.tier)
+            c11.check_wrapper(sub9, fb, w, "default")
+            k9 += 1
+            for r in sub9.results:
+                (ctx.ok if r.status == "ok" else ctx.fail)("R09-5", r.instance, r.reason, r.loc)
+    ctx.floor("hash-ffi-wrappers", k9, 2)
+
+
+def check_entries(ctx, fb):
+    """R09-3: the hash functions and their byte-level entry points reach no global or interior-mutable state other than the immutable
+    parameter table, and the byte-level entry points are compositions of the typed functions on the whole input"""
     # ---------------- R09-3 purity
     roots = ["rln::hashers::poseidon_hash", "rln::hashers::hash_to_field", "rln::public::hash", "rln::public::poseidon_hash"]
     seen, ext, statics = reach(fb, roots)
@@ -146,8 +167,6 @@ def run(ctx):
                     if not good:
                         break
         ctx.check(good, "R09-3", fn, "byte-level entry point = fr_to_bytes_le o typed function on the whole input", why, loc(it))
-    # ---------------- R09-4 shape
-    check_shape(ctx, fb)
 
 
 def check_shape(ctx, fb):
